@@ -11,7 +11,9 @@ EXPLANATION = (
     "failing call appends exactly one wrapper and leaves the loop, the success path appends the result, and nothing else "
     "appends — results are in call order and nothing runs after the first failure; the wrapper class written is the class the "
     "client tests (shared with C07-R5); batch/oneway flags agree on both sides; BatchProxy submits the collected calls once "
-    "and clears them on every path; the batch envelope (kwargs slot None) is accepted by every serializer's dumpsCall/loadsCall. Not decided: equivalence of effects with sequential execution on a stateful object."
+    "and clears them on every path; the batch envelope (kwargs slot None) is accepted by every serializer's dumpsCall/loadsCall."
+    'Also decided: the call list is dropped also when the submission raises; BatchProxy.__copy__ does not share the call list; marshal converts the members of batch containers. '
+    "Not decided: equivalence of effects with sequential execution on a stateful object."
 )
 
 
@@ -132,6 +134,8 @@ def run(ctx, R, tier):
         if o.rule == "C07-R5":
             R.add("C11-R3", o.key.split("|", 1)[1], o.desc, o.ok, o.loc, o.detail)
 
+    from .common import copy_does_not_alias
+    copy_does_not_alias(ctx, R, "C11-R4", "Pyro5.client.BatchProxy", "calls queued on one of them are also submitted by the other")
     # ---------------------------------------------------------------- R6 (shared with C01-R9)
     from . import c01
     R1 = Rules("C01")
@@ -185,6 +189,11 @@ def run(ctx, R, tier):
                 ok = False
                 why = "the batch can be submitted twice by one call"
         R.check(ok, "C11-R4", "BatchProxy.%s|submit-once-and-clear" % mname, "the collected calls are submitted once and cleared on every path", bc.loc(), why)
+        if sub:
+            okx = bool(resets) and bcfg.all_paths_pass(sn, lambda n: n in resets, targets=[bcfg.exit, bcfg.raise_exit])
+            R.check(okx, "C11-R4", "BatchProxy.%s|cleared-also-when-the-submission-raises" % mname, "also when the submission raises, the collected calls are dropped before the method is left",
+                    bc.loc(), "when the submission raises (an unexposed name after calls that did run, a lost connection) the calls stay queued: the next use of this BatchProxy "
+                    "executes the already executed prefix again")
     bc = ctx.fn("Pyro5.client.BatchProxy.__call__")
     bcfg = ctx.cfg(bc)
 
